@@ -177,6 +177,27 @@ control("C20", "formatted suffix ignores the requested unit",
         [(A, "        if unit is None:\n            unit = self.GetUnit()\n        return self.FORMATTED_SUFFIX_FORMAT % unit", "        return self.FORMATTED_SUFFIX_FORMAT % self.GetUnit()")], "C20.R4")
 control("C20", "derived quantity type rendered from the category pairs only once",
         [(Q, "            self._quantity_type = self._MakeStr(list(rep_and_exp.items()))", "            self._quantity_type = self._category")], "C20.R5")
+# ------------------------------------------------------------------------------------------ C17
+control("C17", "RemoveUnitSystem fix reverted (delete, then assert)",
+        [(USM, "        if self._current is not None and self._current.GetId() == unit_system_id:", "        assert self._current is not None\n        if self._current.GetId() == unit_system_id:")], "C17.R2")
+control("C17", "Unregister of the old system dropped",
+        [(USM, "        if self._current is not None:\n            self._current.on_default_unit.Unregister(self._CategoryUnitChange)\n", "")], "C17.R3")
+control("C17", "old listener unregistered only when the new system is not None",
+        [(USM, "        if self._current is not None:\n            self._current.on_default_unit.Unregister(self._CategoryUnitChange)\n", "        if self._current is not None and unit_system is not None:\n            self._current.on_default_unit.Unregister(self._CategoryUnitChange)\n")], "C17.R3")
+control("C17", "on_current skipped in the None arm",
+        [(USM, "            self.on_current(self.__null_unit_system)", "            pass")], "C17.R3")
+control("C17", "system registered before the id test",
+        [(USM, "        if id in self._unit_systems:\n            raise UnitSystemIDError(id)\n", "        self._unit_systems[id] = None  # type:ignore\n        if id in self._unit_systems:\n            raise UnitSystemIDError(id)\n")], "C17.R2")
+control("C17", "template mapping shared instead of deep-copied",
+        [(USM, "                units_mapping = deepcopy(template_units_mapping)", "                units_mapping = template_units_mapping")], "C17.R6")
+control("C17", "RemoveCategory notifies before deleting",
+        [(US, "            del self._units_mapping[category]\n            self.on_default_unit(category, None)", "            self.on_default_unit(category, None)\n            del self._units_mapping[category]")], "C17.R5")
+control("C17", "new system always becomes current",
+        [(USM, "        if self._current is None:\n            self.SetCurrent(unit_system)", "        self.SetCurrent(unit_system)")], "C17.R4")
+control("C17", "ConvertToCurrent converts in the wrong direction",
+        [(USM, "        converted_value = unit_database.Convert(category, unit, to_unit, value)", "        converted_value = unit_database.Convert(category, to_unit, unit, value)")], "C17.R7")
+control("C17", "a query method replaces the current system",
+        [(USM, "        result = self._current\n\n        if result is None:", "        result = self._current\n\n        if result is None and self._unit_systems:\n            self._current = result = next(iter(self._unit_systems.values()))\n        if result is None:")], "C17.R1")
 # ------------------------------------------------------------------------------------------ running
 def _apply(edits):
     overlay = {}
